@@ -21,6 +21,10 @@ Record book := mkbook {
   maxc : Z;                  (* cfg.MaxConnections *)
 }.
 
+(** source facts the model relies on (tied to the code by Generated/C16.v) *)
+Definition connections_key_bare : bool := true.            (* map[uint64]*ActiveConnection *)
+Definition store_then_count_unconditional : bool := true.  (* connections[id] = ac; connCount.Add(1) *)
+
 Definition book_init (maxc : Z) : book := mkbook [] 0 [] [] [] maxc.
 
 Definition delN (x : N) (l : list N) : list N := filter (fun y => negb (y =? x)) l.
